@@ -61,12 +61,23 @@ type verifSink struct {
 	rec   *verifChunkLog
 	wg    sync.WaitGroup
 	mu    sync.Mutex
+	tries int
+}
+
+func (s *verifSink) listenOnce() error {
+	s.tries = 1
+	defer func() { s.tries = 0 }()
+	return s.listen()
 }
 
 func (s *verifSink) listen() error {
 	var err error
+	tries := 50
+	if s.tries > 0 {
+		tries = s.tries
+	}
 	if s.proto == "udp" {
-		for try := 0; try < 50; try++ {
+		for try := 0; try < tries; try++ {
 			s.pc, err = net.ListenPacket("udp", s.addr)
 			if err == nil {
 				break
@@ -99,7 +110,7 @@ func (s *verifSink) listen() error {
 		}()
 		return nil
 	}
-	for try := 0; try < 50; try++ {
+	for try := 0; try < tries; try++ {
 		s.ln, err = net.Listen(s.proto, s.addr)
 		if err == nil {
 			break
@@ -351,11 +362,25 @@ func verifRawSocketCase(dir string, caseNo int, line string) (string, string) {
 	case "unix":
 		sink.addr = filepath.Join(dir, fmt.Sprintf("s%d.sock", caseNo))
 	case "tcp", "udp":
-		sink.addr = "127.0.0.1:0"
+		// A port of this process's own block below the ephemeral range: while the scripted sink is
+		// down its port must not be handed to a sink of a test process running in parallel (their
+		// producers would then feed each other's sinks).
+		sink.addr = ""
 	default:
 		return "bad-op", "fail:bad protocol"
 	}
-	if err := sink.listen(); err != nil {
+	if sink.addr == "" {
+		var err error
+		for try := 0; try < 40; try++ {
+			sink.addr = fmt.Sprintf("127.0.0.1:%d", 20000+(os.Getpid()%590)*20+(caseNo+try)%20)
+			if err = sink.listenOnce(); err == nil {
+				break
+			}
+		}
+		if err != nil {
+			return "env", "fail:sink listen: " + err.Error()
+		}
+	} else if err := sink.listen(); err != nil {
 		return "env", "fail:sink listen: " + err.Error()
 	}
 	up := true
